@@ -106,4 +106,12 @@ Proof.
         destruct (@In_nth_error_len _ _ (deps W j) (cur r') (DJob k) Hk LenE) as (i' & y & Y1 & Y2).
         assert (Z0 : count_nok (cur r') = 0%nat) by lia.
         assert (y = DOK) by (apply (@count_nok_zero (cur r') Z0 i' y Y2)). subst y. eapply CO'; eauto.
+    + apply (I_RD I j k); auto. right. fold r. destruct PC as [X|(_&X)]; [rewrite <- X; exact IS|]. rewrite X in IS; discriminate. }
+  assert (H10 : fdep r' = true -> exists k, In (DJob k) (deps W j) /\ st (jobs s k) = ERROR).
+  { intros FD. destruct Af2 as [X|(NF & X)].
+    + apply (I_FD I j). fold r. congruence.
+    + destruct (Eerr X) as [Y|Y]; [rewrite Y in NF; discriminate|].
+      destruct (NEWF Y) as (k & -> & K). exists k. auto. }
+  assert (H11 : launches r' = 1%nat -> forall k, In (DJob k) (deps W j) -> st (jobs s k) = DONE).
+  { intros L1 k Hk. apply (I_LD I j k); auto. fold r. congruence. }
 Abort.
